@@ -11,7 +11,7 @@ use proptest::prelude::*;
 use proptest::test_runner::{Config, RngSeed, TestCaseError, TestError, TestRunner};
 use serde_json::{json, Value};
 
-use crate::oracle::Violation;
+use crate::violation::Violation;
 
 pub struct CaseReport {
     /// Violations of any property found on this case.
